@@ -1,8 +1,9 @@
 import GoomVerif.Model.ApiC12
 import GoomVerif.Model.LwwC12
 import GoomVerif.Lemmas.C12L
-/-! Counter-examples for the code *as found* (`C12M.asFound`): refinement of the last-writer-wins reference fails.
-    Not obligations — they document defects F7 and F14, which `fixes/F7.diff` and `fixes/F14-pkg-var.diff` repair. -/
+/-! Counter-examples for the code *as first found* (`C12M.asFound`): refinement of the last-writer-wins reference fails.
+    Not obligations — they document defect F7, repaired by 32dc3bc (F14, the Var lookup that kept the Pkg override, fd6dbcf, has no
+    variant in the model any more: `pkg p1 ; var v apply k3 ; xf Y apply k1` is in the regress corpus of the check). -/
 namespace C12.Findings
 open C12M
 
@@ -17,13 +18,6 @@ theorem f7_return_after_apply_lost :
 theorem f7_iface :
     behRows (run asFound init [.h .im (.stub (.ret 1)), .h .im (.apply 2), .h .im (.stub (.whenRet 1 3))])
       ≠ Lww.run Lww.init [.h .im (.stub (.ret 1)), .h .im (.apply 2), .h .im (.stub (.whenRet 1 3))] := by
-  decide
-
-/-- F14: `Pkg(p1); Var(&v); ExportFunc("Y").Apply(k1)` — as found, Var does not call reset2CurPkg, so the override
-    survives the Var lookup and Y of package p1 is mocked instead of the caller's Y. -/
-theorem f14_pkg_survives_var_lookup :
-    behRows (run asFound init [.pkg .p1, .var, .h (.xf .y) (.apply 1)])
-      ≠ Lww.run Lww.init [.pkg .p1, .var, .h (.xf .y) (.apply 1)] := by
   decide
 
 end C12.Findings
